@@ -13,7 +13,7 @@ import threading
 FUNCS = ("run", "_remove_dead_reminders", "_add_dict")
 
 
-def run_with_preemption(call_fn, clear_fn, point, wait=0.1, suffix="psutil/_common.py"):
+def run_with_preemption(call_fn, clear_fn, point, wait=0.05, suffix="psutil/_common.py"):
     """-> dict(reached=bool, during=bool, call=<result of call_fn>, clear=<result of clear_fn>)"""
     paused, resume, a_done = threading.Event(), threading.Event(), threading.Event()
     st = {"n": 0, "reached": False}
